@@ -274,6 +274,59 @@ def run_area(spec):
                 steps.append(err(e))
         hs.append(steps)
     out["histories"] = hs
+    # ---- DERIVED objects: areas obtained from an area that already holds lon/lats (cached or constructor-given) by
+    # crops, strided slices and copy(); every accessor of the derived object is reported together with ITS extent and shape
+    dv = []
+    for sc in spec.get("derived", []):
+        o = {}
+        try:
+            with warnings.catch_warnings():
+                warnings.simplefilter("ignore")
+                if sc["prime"] == "ctor":
+                    lo0, la0 = AreaDefinition("c01", "c01", "c01", spec["crs"], spec["w"], spec["h"], tuple(spec["extent"])).get_lonlats()
+                    parent = AreaDefinition("c01", "c01", "c01", spec["crs"], spec["w"], spec["h"], tuple(spec["extent"]), lons=lo0, lats=la0)
+                else:
+                    parent = AreaDefinition("c01", "c01", "c01", spec["crs"], spec["w"], spec["h"], tuple(spec["extent"]))
+                    if sc["prime"] == "cache":
+                        parent.get_lonlats(cache=True)
+                obj = parent
+                for st in sc["chain"]:
+                    if st[0] == "getitem":
+                        obj = obj[slice(*st[1]), slice(*st[2])]
+                    elif st[0] == "copy":
+                        obj = obj.copy()
+                    elif st[0] == "cache":
+                        obj.get_lonlats(cache=True)
+                o["extent"] = [float(v) for v in obj.area_extent]
+                o["shape"] = [int(obj.height), int(obj.width)]
+                o["is_parent"] = obj is parent
+
+                def grab(name, fn):
+                    try:
+                        o[name] = fn()
+                    except Exception as e:
+                        o[name] = err(e)
+                grab("ll_whole", lambda: pair_out(obj.get_lonlats()))
+                grab("ll_slice", lambda: pair_out(obj.get_lonlats(data_slice=(slice(1, None), slice(None, -1)))))
+                grab("ll_dask", lambda: pair_out(obj.get_lonlats(chunks=2)))
+                grab("xy", lambda: pair_out(obj.get_proj_coords()))
+                grab("lonlat_00", lambda: [float(v) for v in obj.get_lonlat(0, 0)])
+                grab("lonlat_last", lambda: [float(v) for v in obj.get_lonlat(-1, -1)])
+                grab("colrow_last", lambda: [float(v) for v in obj.colrow2lonlat(obj.width - 1, obj.height - 1)])
+
+                def idx():
+                    lo_, la_ = obj.get_lonlats()
+                    c_, r_ = obj.get_array_indices_from_lonlat(np.array(lo_), np.array(la_))
+                    return [masked_out(c_), masked_out(r_)]
+                grab("idx_of_own_lonlats", idx)
+                # the caller overwrites what the derived object handed out; the parent must be unaffected
+                res = obj.get_lonlats()
+                o["scribbled"] = scribble(res)
+                grab("parent_ll_after", lambda: pair_out(parent.get_lonlats()))
+        except Exception as e:
+            o["derive_error"] = err(e)
+        dv.append(o)
+    out["derived"] = dv
     # ---- several lazy results evaluated in ONE dask.compute: this area and a twin of equal shape and pixel size
     jt = spec.get("joint")
     if jt:
